@@ -131,6 +131,8 @@ type Sim struct {
 	streamsSeen    []*Stream
 	dialCancel     [2]context.CancelFunc
 	inWrite        map[*Stream]int // harness writes in progress (blocked inside WriteSCTP)
+	inWriteID      map[*Stream]int // running number of the write in progress on a stream
+	failedWrite    map[*Stream]map[int]bool
 	quiescentHooks []func()
 	wroteBytes     map[*Stream]int // bytes accepted by harness writes, per stream
 	monDone        bool
@@ -368,7 +370,7 @@ func runExec(t *testing.T, sc *Scenario, prefix []int, sigs []string, keepSigs b
 			}
 		}()
 		synctest.Test(t, func(t *testing.T) {
-			m := &Sim{T: t, Rand: &detRand{state: 12345}, inWrite: map[*Stream]int{}, wroteBytes: map[*Stream]int{}}
+			m := &Sim{T: t, Rand: &detRand{state: 12345}, inWrite: map[*Stream]int{}, wroteBytes: map[*Stream]int{}, inWriteID: map[*Stream]int{}, failedWrite: map[*Stream]map[int]bool{}}
 			globalMathRandomGenerator = m.Rand
 			vsched.Namer = m.nameLock
 			var start time.Time
